@@ -332,8 +332,58 @@ def run_property(prop, tier="quick", seed=0, explain=None):
         "wall_s": round(time.time() - t0, 2),
         "violations": len(viol),
     }
+    if tier == "thorough" and os.environ.get("VERIF_SELFTEST", "1") != "0" and build.REPO == "/repo":
+        # sensitivity self-test: the stored breaking changes this check is recorded to report must still be reported when
+        # applied to a scratch copy of the tree under analysis (evidence of sensitivity, never part of the verdict)
+        try:
+            st = selftest(prop)
+            ev["coverage"]["selftest"] = st
+            print("%s selftest: %d of %d stored breaking changes reported (%d no longer apply to this tree)%s"
+                  % (prop, st["reported"], st["applied"], st["skipped"], "" if not st["missed"] else "; NOT reported: " + ", ".join(st["missed"])))
+        except Exception as e:          # the self-test must never disturb the verdict
+            ev["coverage"]["selftest"] = {"error": "%s: %s" % (type(e).__name__, str(e)[:200])}
     with open(evfile, "w") as f:
         json.dump(ev, f, indent=1)
     print("%s: %d obligations, %d hold, %d known finding(s), %d violation(s); %.1fs"
           % (prop, len(obl), ev["coverage"]["discharged"], len(knownhit), len(viol), time.time() - t0))
     return 1 if viol else 0
+
+
+def selftest(prop, jobs=8):
+    """Apply each stored breaking change that `prop`'s check is recorded to report (seeded/*/meta.json) to a scratch copy
+    of the analysed tree (under a fresh mkdtemp directory, removed afterwards) and run the quick check on it."""
+    import glob, shutil, subprocess, tempfile
+    from concurrent.futures import ThreadPoolExecutor
+    todo = []
+    for d in sorted(glob.glob(os.path.join(VERIF, "seeded", "C*-*"))):
+        try:
+            with open(os.path.join(d, "meta.json")) as fh:
+                meta = json.load(fh)
+        except Exception:
+            continue
+        if prop in (meta.get("verified", {}).get("caught_by") or {}):
+            todo.append((os.path.basename(d), os.path.join(d, "patch.diff")))
+
+    def one(item):
+        name, patch = item
+        t = tempfile.mkdtemp(prefix="verif-selftest-")
+        try:
+            for x in ("src", "Cargo.toml", "Cargo.lock"):
+                sp = os.path.join(build.REPO, x)
+                (shutil.copytree if os.path.isdir(sp) else shutil.copy)(sp, os.path.join(t, x))
+            r = subprocess.run(["patch", "-s", "-p1", "-d", t, "-i", patch], capture_output=True, text=True)
+            if r.returncode != 0:
+                return name, None
+            env = dict(os.environ, VERIF_REPO=t, VERIF_EVIDENCE=os.path.join(t, ".verif-evidence"), VERIF_SELFTEST="0",
+                       VERIF_BUILD_SLOTS=os.environ.get("VERIF_BUILD_SLOTS", "8"), VERIF_CACHE_KEEP=os.environ.get("VERIF_CACHE_KEEP", "64"))
+            r = subprocess.run([os.path.join(VERIF, "check"), prop, "--tier", "quick"], env=env, capture_output=True, text=True)
+            return name, r.returncode == 1
+        finally:
+            shutil.rmtree(t, ignore_errors=True)
+    res = {}
+    with ThreadPoolExecutor(jobs) as ex:
+        for name, ok in ex.map(one, todo):
+            res[name] = ok
+    applied = [n for n, v in res.items() if v is not None]
+    return {"stored": len(todo), "applied": len(applied), "skipped": len(todo) - len(applied),
+            "reported": sum(1 for n in applied if res[n]), "missed": sorted(n for n in applied if not res[n])}
